@@ -253,6 +253,14 @@ func (ef *Effects) follow(g ssa.Value, v ssa.Value, seen map[ssa.Value]bool, add
 				continue
 			}
 			if fa, ok := x.Addr.(*ssa.FieldAddr); ok {
+				if ia, ok := fa.X.(*ssa.IndexAddr); ok {
+					if g2, ok := ia.X.(*ssa.Global); ok && p.InModule(g2.Pkg) {
+						// a field of an element of a package-level table of structs (per-language
+						// descriptors): what is later loaded from that table may alias g
+						ef.followTable(g, g2, seen, addWrite, depth+1)
+						continue
+					}
+				}
 				if a, ok := fa.X.(*ssa.Alloc); ok {
 					// a field of a local struct (an `encoder{words: list, …}` carried between helper
 					// steps): whatever is read back out of that struct may alias g
@@ -564,6 +572,14 @@ func (ef *Effects) followTable(g ssa.Value, t *ssa.Global, seen map[ssa.Value]bo
 					for _, r := range *ia.Referrers() {
 						if ld, ok := r.(*ssa.UnOp); ok && ld.Op == token.MUL && mutableType(ld.Type()) {
 							ef.follow(g, ld, seen, addWrite, depth+1)
+						}
+						if fa, ok := r.(*ssa.FieldAddr); ok {
+							// table of structs: a field of the selected element
+							for _, fr := range *fa.Referrers() {
+								if ld, ok := fr.(*ssa.UnOp); ok && ld.Op == token.MUL && mutableType(ld.Type()) {
+									ef.follow(g, ld, seen, addWrite, depth+1)
+								}
+							}
 						}
 					}
 				}
